@@ -14,9 +14,19 @@
 #include <quadmath.h>
 #include <smooth/spline/dubins.hpp>
 
+#include <atomic>
+
 namespace {
 using namespace c14;
 using Q = __float128;
+
+void atomic_max(std::atomic<double> & a, double v)
+{
+  double cur = a.load();
+  while (v > cur && !a.compare_exchange_weak(cur, v)) {}
+}
+// calibration witnesses over the cases without a zero-duration segment
+std::atomic<double> g_speed{0}, g_curv{0}, g_pose{0};
 
 const Q PIq    = M_PIq;
 const Q TWOPIq = 2 * M_PIq;
@@ -135,6 +145,7 @@ struct RefResult
   int word;      // 0..7
   double miss;   // forward-integration end-pose error of the minimiser (self check)
   double dcen_gap;
+  double min_arc;  // smallest |arc angle| over the C segments of all candidates tied for the minimum
 };
 
 RefResult reference(double x, double y, double s, double c, double Rd)
@@ -149,17 +160,31 @@ RefResult reference(double x, double y, double s, double c, double Rd)
   r.word = -1;
   Cand best;
   bool best_m = false;
+  Cand all[8];
   for (int mir = 0; mir < 2; ++mir) {
     const Tgt & u = mir ? m : t;
     Cand cs[4]    = {lsl(u, R), lsr(u, R), lrl(u, R, +1), lrl(u, R, -1)};
-    for (auto & k : cs)
-      if (k.len < r.len) {
-        r.len  = k.len;
-        r.word = k.word + 4 * mir;
-        best   = k;
+    for (int k = 0; k < 4; ++k) {
+      all[4 * mir + k] = cs[k];
+      if (cs[k].len < r.len) {
+        r.len  = cs[k].len;
+        r.word = cs[k].word + 4 * mir;
+        best   = cs[k];
         best_m = mir;
       }
+    }
   }
+  // smallest turning-arc angle among the (near-)minimal candidates: a path whose arc is within rounding of zero
+  Q marc = 10;
+  for (auto & k : all) {
+    if (!(k.len <= r.len + 1e-9Q * (1 + r.len))) continue;
+    const bool ccc = (k.word >= 2);
+    for (int i = 0; i < 3; ++i) {
+      if (i == 1 && !ccc) continue;
+      marc = fabsq(k.seg[i]) < marc ? fabsq(k.seg[i]) : marc;
+    }
+  }
+  r.min_arc = (double)marc;
   Q fx, fy, fth;
   forward(best, R, best_m, fx, fy, fth);
   const Q sc = R > hypotq(t.x, t.y) ? R : hypotq(t.x, t.y);
@@ -234,6 +259,7 @@ void run_K(const Grid & g)
     };
     const RefResult ref = reference(tx, ty, tsn, tcs, R);
     c.param("dcen_gap", ref.dcen_gap);
+    c.param("min_arc", ref.min_arc);
     c.param("rho_over_R", g.rho[ir]);
     c.param("R", R);
     // oracle self check, per case: the minimising candidate really ends at the target
@@ -258,8 +284,10 @@ void run_K(const Grid & g)
     // end pose = target. measure: max-abs difference of the documented matrices / max(1, |target entries|)
     const auto Mt = matL(target);
     auto poserr   = [&](const smooth::SE2d & p) { return (double)((matL(p) - Mt).maxabs() / std::max((L)1, Mt.maxabs())); };
-    // calibrated: worst observed 2.6e-15 on the thorough grid -> tolerance 1e-12 (>= 100 x worst, covers 1e-9 (1+len) length slack)
-    c.judge("end()=target", poserr(curve.end()), 1e-12);
+    // calibrated: worst observed 8.4e-15 on the thorough grid (cases without zero-duration segment) -> 100 x = 8.4e-13 -> 1e-12
+    const double e_pose = poserr(curve.end());
+    if (!(gap <= 0)) atomic_max(g_pose, e_pose);
+    c.judge("end()=target", e_pose, 1e-12);
     c.judge("c(t_max)=target", poserr(curve(len)), 1e-12);
 
     if (len > 0) {
@@ -271,17 +299,31 @@ void run_K(const Grid & g)
         tt.push_back(std::nextafter(tk, 0.));
         if (tk < len) tt.push_back(std::nextafter(tk, INFINITY));
       }
+      // The spline stores cumulative knot times, so the duration T_seg of a segment is only known to ulp(t): body
+      // velocity carries a relative error ~ eps * t_max / T_seg. Speed error is measured relative to that forward-error
+      // scale (1 + t_max / T_seg); curvature = omega / speed is a ratio of two equally scaled numbers and needs none.
+      auto segdur = [&](double t) {
+        const auto & kt = curve.m_end_t;
+        size_t i        = 0;
+        while (i + 1 < kt.size() && !(t < kt[i])) ++i;
+        return kt[i] - (i ? kt[i - 1] : 0.);
+      };
       double e_speed = 0, e_curv = 0;
       for (double t : tt) {
         Eigen::Vector3d v;
         curve(t, v);
         const double sp = std::hypot(v(0), v(1));
-        const double es = std::fabs(sp - 1), ec = std::fabs(v(2)) * R / sp - 1;
+        const double es = std::fabs(sp - 1) / (1 + len / segdur(t)), ec = std::fabs(v(2)) * R / sp - 1;
         e_speed = (es == es) ? std::max(e_speed, es) : NAN;
         e_curv  = (ec == ec) ? std::max(e_curv, ec) : NAN;
         if (!(e_speed == e_speed) || !(e_curv == e_curv)) break;
       }
-      // calibrated: worst observed 8.9e-16 / 6.7e-16 -> 64 eps floor would be 1.4e-14; use 1e-13
+      if (gap > 0) {
+        atomic_max(g_speed, e_speed);
+        atomic_max(g_curv, e_curv);
+      }
+      // calibrated (thorough grid, cases without a zero-duration segment; witnesses in the evidence notes):
+      // speed (scaled) worst 6.7e-16, curvature excess worst 8.9e-16 -> max(100 x worst, 64 eps) = 8.9e-14 -> 1e-13
       c.judge("unit speed at evaluation times", e_speed, 1e-13);
       c.judge("|curvature|<=1/R at evaluation times", e_curv, 1e-13);
     } else {
@@ -302,4 +344,7 @@ MC_SUBCHECK(c_dubins)
   run_K<2>(g);
   run_K<3>(g);
   run_K<5>(g);
+  mc::note("dubins_calibration_no_zero_duration_segment",
+    mc::fmt("{\"worst_speed_error_scaled\": %.3g, \"worst_curvature_excess\": %.3g, \"worst_end_pose\": %.3g}", g_speed.load(),
+      g_curv.load(), g_pose.load()));
 }
